@@ -4,11 +4,13 @@ patterns `vat F`); indices and re-ordered matrix must agree exactly (bitwise on
 floats).  Oracle: the property statement executed on the implementation alone."""
 from __future__ import annotations
 
+from fractions import Fraction
+
 import numpy as np
 from scipy.spatial.distance import pdist, squareform
 
 from .. import gen
-from ..common import f2hex, mat_f, mat_q, parse_kv, parse_nats, run_driver
+from ..common import f2hex, mat_f, mat_q, parse_kv, parse_nats, q2s, run_driver
 from ..impl import quiet, exc_enum
 
 from artlib.common.VAT import VAT  # noqa: E402  (impl has pinned sys.path to $VERIF_REPO)
@@ -18,7 +20,9 @@ RULE = ("cases = (generator kind, input matrix or point set, distance callable, 
         "a case is non-trivial when n >= 3 and the run met at least one tie (in the seed arg-max or in some step's "
         "arg-min) or a duplicate sample, or the matrix is not symmetric, or the distance callable is not a monotone "
         "function of the straight-line distance between the samples (circular, feature-map, non-monotone, look-up "
-        "callables on 1..3 columns); distinct by hash of (mode, matrix bit patterns)")
+        "callables on 1..3 columns), or (integer matrices with entries above 2**53) the seed arg-max or some step's "
+        "arg-min is decided by a difference smaller than the float64 spacing at that magnitude; "
+        "distinct by hash of (mode, matrix bit patterns / exact integer entries)")
 
 KINDS = ["int-ties", "int-ties", "float-sym", "points-grid", "points-dups", "points-float", "nonsym-int",
          "nonsym-float", "custom-metric", "constant", "two-level", "special-values", "custom-callable",
@@ -113,8 +117,19 @@ def _table(seed):
     return f
 
 
+def _intcityblock(_):
+    """Manhattan distance of INTEGER rows computed in the rows' own integer dtype (no detour through float64: exact
+    for int64 / uint64 coordinates above 2**53, e.g. nanosecond time stamps); returns an integer condensed vector"""
+    def f(X):
+        X = np.asarray(X)
+        i, j = np.triu_indices(X.shape[0], k=1)
+        a, b = X[i], X[j]
+        return (np.maximum(a, b) - np.minimum(a, b)).sum(axis=1, dtype=X.dtype)   # |a-b| without unsigned wrap-around
+    return f
+
+
 FAMILIES = {"circular": lambda p: _circular(float.fromhex(p)), "fmap": _fmap, "gdist": _gdist,
-            "discrete": _discrete, "column": _column, "table": _table}
+            "discrete": _discrete, "column": _column, "table": _table, "intcityblock": _intcityblock}
 PERIODS = [2.0 * np.pi, 4.0, 1.0, 360.0, 3.0]
 
 
@@ -246,10 +261,154 @@ def make_case(r, kind, n):
         if r.random() < 0.3:
             D = D + np.triu(np.array([[r.choice([0.0, 1.0]) for _ in range(n)] for _ in range(n)]).reshape(n, n), 1)
         return dict(kind=kind, D=D, X=None, metric=None, rational=False)
+    if kind == "int-huge":
+        return make_int_huge(r, n)
     raise ValueError(kind)
 
 
+# ---- INTEGER dissimilarities beyond the float64 mantissa (int64 / uint64 nanosecond durations, tick counts, hashes):
+# ---- every entry is exact in its own dtype, two candidates may differ by 1 although they round to the same double.
+# ---- Built from Python ints (exact), handed to VAT as an integer ndarray; checked by `oracle_exact` in Python ints.
+
+INT_BASES = {
+    "int64": [2 ** 53, 2 ** 53 + 2 ** 20 + 1, 2 ** 56, 2 ** 60 + 7, 2 ** 62, 2 ** 63 - 8],
+    "uint64": [2 ** 53, 2 ** 54 + 1, 2 ** 60 + 7, 2 ** 63, 2 ** 63 + 2 ** 40, 2 ** 64 - 8],
+}
+INT_HUGE_STYLES = ["near-base-sym", "near-base-sym", "near-base-nonsym", "two-level", "mixed-small-huge",
+                   "manhattan-points", "manhattan-points"]
+
+
+def make_int_huge(r, n):
+    dtype = r.choice(["int64", "int64", "uint64"])
+    top = 2 ** 63 - 1 if dtype == "int64" else 2 ** 64 - 1
+    style = r.choice(INT_HUGE_STYLES)
+    base = r.choice(INT_BASES[dtype])
+    k = min(r.choice([1, 1, 2, 3, 5]), top - base)      # candidates differ by 1..k
+    X, metric = None, None
+    if style == "near-base-sym":
+        Dx = [[0] * n for _ in range(n)]
+        for i in range(n):
+            for j in range(i + 1, n):
+                Dx[i][j] = Dx[j][i] = base + r.randint(0, k)
+    elif style == "near-base-nonsym":
+        neg = dtype == "int64" and r.random() < 0.3       # negative entries: the order is what counts
+        Dx = [[(-1 if neg and r.random() < 0.5 else 1) * (base + r.randint(0, k)) for _ in range(n)] for _ in range(n)]
+        if r.random() < 0.5:
+            for i in range(n):
+                Dx[i][i] = 0
+    elif style == "two-level":                            # clusters, within / between levels both beyond 2**53
+        far = 2 * base if 2 * base + k <= top else base + 2 ** 30
+        far = min(far, top - k)
+        g = [r.randrange(r.randint(1, 3)) for _ in range(n)]
+        Dx = [[0] * n for _ in range(n)]
+        for i in range(n):
+            for j in range(i + 1, n):
+                Dx[i][j] = Dx[j][i] = (base if g[i] == g[j] else far) + r.randint(0, k)
+    elif style == "mixed-small-huge":                     # some pairs small (exact doubles), some beyond 2**53
+        Dx = [[0] * n for _ in range(n)]
+        for i in range(n):
+            for j in range(i + 1, n):
+                Dx[i][j] = Dx[j][i] = r.randint(1, 9) if r.random() < 0.3 else base + r.randint(0, k)
+    else:                                                 # "manhattan-points": time stamps on 1..2 clocks
+        d = r.randint(1, 2)
+        B = r.choice([2 ** 53, 2 ** 54, 2 ** 58] + ([2 ** 61] if dtype == "uint64" and d == 1 else []))
+        pts = [[r.randint(0, 3) * B + r.randint(0, 3) for _ in range(d)] for _ in range(n)]
+        if n >= 3 and r.random() < 0.3:
+            pts[r.randrange(n)] = list(pts[r.randrange(n)])
+        Dx = [[sum(abs(a - b) for a, b in zip(p, q)) for q in pts] for p in pts]
+        X = np.array(pts, dtype=dtype).reshape(n, d)
+        metric = "intcityblock:"
+    D = np.array(Dx, dtype=dtype).reshape(n, n)
+    assert [[int(v) for v in row] for row in D] == Dx     # the ndarray holds the Python ints exactly
+    return dict(kind="int-huge", D=D, X=X, metric=metric, rational=True, style=style, dtype=dtype)
+
+
 # ------------------------------------------------------------------ oracle (implementation only)
+
+def exact_val(v):
+    """the exact value of one array entry: a Python int for integer dtypes, a Fraction for a finite float of any
+    width, otherwise its repr (never equal to a number)"""
+    if isinstance(v, (int, np.integer)):
+        return int(v)
+    if isinstance(v, (float, np.floating)):
+        if not np.isfinite(v):
+            return repr(v)
+        q = Fraction(*v.as_integer_ratio())
+        return int(q) if q.denominator == 1 else q
+    return repr(v)
+
+
+def exact_rows(M):
+    M = np.asarray(M)
+    return [[exact_val(v) for v in row] for row in M]
+
+
+def oracle_exact(ctx, D, out, idx, mode, rep):
+    """C20 on an INTEGER dissimilarity matrix, in exact (Python int) arithmetic against the input: no comparison and
+    no equality goes through float64, so entries above 2**53 that differ by 1 stay different.  Returns coverage tags."""
+    tags = set()
+    Dx = exact_rows(D)
+    n = len(Dx)
+    cls = f"VAT[{mode}]:exact-int"
+    if np.asarray(idx).shape != (n,):
+        return tags                                         # reported by `oracle`
+    P = [int(t) for t in np.asarray(idx).ravel()]
+    if sorted(P) != list(range(n)):
+        return tags                                         # reported by `oracle`
+    flat = [v for row in Dx for v in row]
+    if any(abs(v) > 2 ** 53 for v in flat):
+        tags.add("exact-int:entries-above-2**53")
+    if any(int(float(v)) != v for v in flat):
+        tags.add("exact-int:entry-not-float64-representable")
+    # seed: an endpoint of a largest dissimilarity
+    gmax = max(flat)
+    if max(Dx[P[0]]) != gmax:
+        ctx.issue("violation", f"{cls}:seed-not-max-endpoint",
+                  f"row {P[0]} has max {max(Dx[P[0]])}, the largest dissimilarity is {gmax} "
+                  f"(difference {gmax - max(Dx[P[0]])})", rep)
+    if any(v != gmax and float(v) == float(gmax) for v in flat):
+        tags.add("exact-int:seed-decided-below-float64-spacing")
+        first = next(t for t, v in enumerate(flat) if float(v) == float(gmax))
+        if max(Dx[first // n]) != gmax:
+            tags.add("exact-int:seed-float64-would-pick-another-row")
+    # every step: appended sample is unvisited and closest to the visited set
+    for k_ in range(1, n):
+        vis = P[:k_]
+        seen = set(vis)
+        unv = [j for j in range(n) if j not in seen]
+        cand = [(Dx[i][j], j) for i in vis for j in unv]    # row-major over (visited, unvisited), as np.ix_ lays it out
+        best = min(c for c, _ in cand)
+        got = min(Dx[i][P[k_]] for i in vis)
+        if got != best:
+            closer = sorted({j for c, j in cand if c == best})
+            ctx.issue("violation", f"{cls}:step-not-nearest-unvisited",
+                      f"step {k_}: appended sample {P[k_]} at distance {got} from the visited set {vis}, but sample(s) "
+                      f"{closer} are closer ({best}; difference {got - best})", rep)
+            break
+        fb = float(best)
+        near = [(c, j) for c, j in cand if float(c) == fb]
+        if any(c != best for c, _ in near):
+            tags.add("exact-int:step-decided-below-float64-spacing")
+            if near[0][0] != best:                          # first candidate that rounds to the same double is farther
+                tags.add("exact-int:step-float64-would-pick-another-sample")
+    # matrix: the input's entries, exactly, re-ordered by the permutation
+    want = [[Dx[i][j] for j in P] for i in P]
+    o = np.asarray(out)
+    if o.shape != (n, n):
+        ctx.issue("violation", f"{cls}:matrix-not-reordered-input", f"returned matrix has shape {o.shape}", rep)
+        return tags
+    got_m = exact_rows(o)
+    if got_m != want:
+        bad = [(a, b) for a in range(n) for b in range(n) if got_m[a][b] != want[a][b]]
+        a, b = bad[0]
+        ctx.issue("violation", f"{cls}:matrix-not-reordered-input",
+                  f"returned matrix (dtype {o.dtype}) does not hold the input's entries: {len(bad)} of {n * n} differ, "
+                  f"e.g. out[{a},{b}] = {got_m[a][b]} but D[idx[{a}], idx[{b}]] = {want[a][b]}", rep)
+    if o.dtype != np.asarray(D).dtype:
+        tags.add("exact-int:output-dtype-differs-from-input")
+    return tags
+
+
 
 def bits_equal(A, B) -> bool:
     A, B = np.asarray(A), np.asarray(B)
@@ -324,7 +483,19 @@ def oracle(ctx, D, out, idx, mode, rep):
 
 # ------------------------------------------------------------------ run
 
+def mat_qx(M) -> str:
+    """exact rational text of every entry (common.mat_q goes through float(): lossy for integers above 2**53)"""
+    rows = exact_rows(M)
+    return "|".join(",".join(q2s(v) for v in row) for row in rows) if rows else "-"
+
+
+def is_int(D) -> bool:
+    return np.asarray(D).dtype.kind in "iu"
+
+
 def model_line(D, rational: bool) -> str:
+    if is_int(D):
+        return "vat R " + mat_qx(D)
     return ("vat R " + mat_q(D.tolist())) if rational else ("vat F " + mat_f(D.astype(float)))
 
 
@@ -358,7 +529,13 @@ def compare(ctx, D, rational, out, idx, model_out, mode, rep):
     if m_idx != i_idx:
         ctx.issue("diff", f"vat:{mode}:indices", f"impl indices {i_idx}, model {m_idx}", rep)
         return
-    i_out = mat_q(np.asarray(out).tolist()) if rational else mat_f(np.asarray(out, dtype=float))
+    if is_int(D):
+        try:
+            i_out = mat_qx(out)
+        except (TypeError, ValueError):          # an entry that is not a number (inf / nan after a cast)
+            i_out = repr(np.asarray(out).tolist())
+    else:
+        i_out = mat_q(np.asarray(out).tolist()) if rational else mat_f(np.asarray(out, dtype=float))
     if kv["out"] != i_out:
         ctx.issue("diff", f"vat:{mode}:matrix", f"impl matrix {i_out[:200]}, model {kv['out'][:200]}", rep)
         return
@@ -385,9 +562,12 @@ def run(ctx):
     ctx.trusted += ["numpy argmax/argmin/unravel_index/ix_ tie and ordering rules (modelled, exercised by the tie)",
                     "scipy squareform/pdist (the matrix they produce is handed unchanged to the model)"]
     lines, pend = [], []
-    for i in range(N):
-        r = gen.rng_for(ctx.seed, "C20", i)
-        kind = KINDS[i % len(KINDS)]
+    # the int-huge cases are appended with their own generator tag, the cases 0..N-1 are what they were before
+    N_huge = ctx.scale(160, 900)
+    plan = [(i, "C20", KINDS[i % len(KINDS)]) for i in range(N)] + \
+           [(N + j, "C20-int-huge", "int-huge") for j in range(N_huge)]
+    for i, gtag, kind in plan:
+        r = gen.rng_for(ctx.seed, gtag, i)
         # sizes: every small n often (exhaustive-ish on 2..5), the rest up to nmax
         t = r.random()
         n = 1 if (t < 0.01) else (r.randint(2, 5) if t < 0.4 else r.randint(2, nmax))
@@ -397,6 +577,11 @@ def run(ctx):
         D, X = c["D"], c["X"]
         base = {"case": i, "kind": kind, "n": n, "D_hex": mat_f(np.asarray(D, dtype=float)),
                 "X": None if X is None else X, "metric": c["metric"]}
+        if kind == "int-huge":                 # D_hex / X are rounded to doubles: the exact integers travel beside them
+            base.update(D_int=exact_rows(D), dtype=c["dtype"], style=c["style"],
+                        X_int=None if X is None else exact_rows(X),
+                        D_hex="(lossy, see D_int) " + base["D_hex"], X=None)
+        ckey = mat_qx(D) if kind == "int-huge" else base["D_hex"]
         line = model_line(D, c["rational"])
         calls = [("precomputed", D, None)]
         if c["metric"] == "default":
@@ -408,11 +593,16 @@ def run(ctx):
             rep = dict(base, mode=mode, line=line)
             res = call_impl(ctx, mode, arg, metric, rep)
             if res is None:
-                cov.case((mode, base["D_hex"]), False)
+                cov.case((mode, ckey), False)
                 continue
             out, idx = res
             tags = oracle(ctx, np.asarray(D), out, idx, mode, rep)
-            if mode == "custom":
+            if is_int(D):
+                tags |= oracle_exact(ctx, D, out, idx, mode, rep)
+            if mode == "custom" and kind == "int-huge":
+                cov.hit("callable:intcityblock")
+                cov.hit("custom:integer-dtype-rows")
+            elif mode == "custom":
                 dcols = "d=1" if X.shape[1] == 1 else "d>=2"
                 cov.hit(f"custom:{dcols}")
                 cov.hit("callable:" + metric.partition(":")[0])
@@ -423,8 +613,10 @@ def run(ctx):
                     cov.hit(f"callable-not-monotone-in-distance:{dcols}")
             tags_all |= tags
             nontrivial = n >= 3 and bool(tags & {"tie-in-seed", "tie-in-step", "duplicates", "nonsymmetric",
-                                                 "callable-not-monotone-in-distance"})
-            cov.case((mode, base["D_hex"]), nontrivial)
+                                                 "callable-not-monotone-in-distance",
+                                                 "exact-int:seed-decided-below-float64-spacing",
+                                                 "exact-int:step-decided-below-float64-spacing"})
+            cov.case((mode, ckey), nontrivial)
             cov.hit(f"mode:{mode}")
             lines.append(line)
             pend.append((D, c["rational"], out, idx, mode, rep))
@@ -432,8 +624,11 @@ def run(ctx):
             cov.hit(t_)
         cov.hit(f"kind:{kind}")
         cov.hit("n=1" if n == 1 else "n=2" if n == 2 else "n>=3")
-        if D.dtype.kind == "i":
+        if D.dtype.kind in "iu":
             cov.hit("int-dtype-input")
+            cov.hit(f"int-dtype:{D.dtype.name}")
+        if kind == "int-huge":
+            cov.hit("int-huge:" + c["style"])
         if D.dtype.kind == "f" and np.any(np.signbit(D) & (D == 0)):
             cov.hit("negative-zero-entry")
         if D.dtype.kind == "f" and np.any(np.isinf(D)):
@@ -447,7 +642,11 @@ def run(ctx):
     # the branches the theorems talk about must have been met
     for must in ("tie-in-seed", "tie-in-step", "tie-in-step:row-major-rule-decides", "duplicates",
                  "nonsymmetric", "seed-not-row0", "symmetric-zero-diagonal", "callable-not-monotone-in-distance",
-                 "callable-not-monotone-in-distance:d=1", "callable:circular", "custom:d=1"):
+                 "callable-not-monotone-in-distance:d=1", "callable:circular", "custom:d=1",
+                 "int-dtype:int64", "int-dtype:uint64", "exact-int:entries-above-2**53",
+                 "exact-int:entry-not-float64-representable", "exact-int:seed-float64-would-pick-another-row",
+                 "exact-int:step-decided-below-float64-spacing", "exact-int:step-float64-would-pick-another-sample",
+                 "custom:integer-dtype-rows"):
         if cov.branches.get(must, 0) == 0:
             cov.hit("unreached:" + must)
             ctx.log.append(f"coverage: branch {must!r} not reached in this run")
@@ -457,15 +656,22 @@ def replay(ctx, payload) -> int:
     """re-run one stored case: payload['replay'] holds D_hex (+ X, metric, mode)"""
     from ..common import parse_mat_f
     rep = payload.get("replay") or {}
-    D = np.array(parse_mat_f(rep["D_hex"]), dtype=float)
     mode = rep.get("mode", "precomputed")
-    arg = D if mode == "precomputed" else np.array(rep["X"], dtype=float)
+    if rep.get("D_int") is not None:          # integer dissimilarities: rebuilt exactly, in their own dtype
+        n = len(rep["D_int"])
+        D = np.array(rep["D_int"], dtype=rep["dtype"]).reshape(n, n)
+        arg = D if mode == "precomputed" else np.array(rep["X_int"], dtype=rep["dtype"]).reshape(n, -1)
+    else:
+        D = np.array(parse_mat_f(rep["D_hex"]), dtype=float)
+        arg = D if mode == "precomputed" else np.array(rep["X"], dtype=float)
     res = call_impl(ctx, mode, arg, rep.get("metric"), rep)
     if res is None:
         return 1
     out, idx = res
     oracle(ctx, D, out, idx, mode, rep)
-    line = model_line(D, False)
-    compare(ctx, D, False, out, idx, run_driver([line])[0], mode, dict(rep, line=line))
+    if is_int(D):
+        oracle_exact(ctx, D, out, idx, mode, rep)
+    line = model_line(D, is_int(D))
+    compare(ctx, D, is_int(D), out, idx, run_driver([line])[0], mode, dict(rep, line=line))
     print(f"[C20] replay: indices {list(map(int, idx))}")
     return 0
